@@ -78,6 +78,9 @@ func VerifH_C07_api_shared_group_ladder() {
 	vrt.StepBudget(2500000)
 	f, err := Open("c07l.h5")
 	if err == nil {
+		n := 0
+		f.Walk(func(string, Object) { n++ }) // walking is a read operation too: same budget
+		vrt.Assert(n >= depth, "ladder-walk-reaches-every-group")
 		_ = f.Close()
 	}
 	vrt.Covered("ladder-opened")
@@ -309,6 +312,9 @@ func VerifH_C07_api_link_message_ladder() {
 	vrt.StepBudget(3000000) // a pass that loads each of the 17 groups once stays below a third of this
 	f, err = Open("c07m.h5")
 	if err == nil {
+		n := 0
+		f.Walk(func(string, Object) { n++ })
+		vrt.Assert(n >= depth, "ladder-walk-reaches-every-group")
 		_ = f.Close()
 	}
 	vrt.Covered("link-ladder-opened")
